@@ -105,6 +105,8 @@ MUTANTS = [
  ("B7 top-3 accuracy: an exact tie with the third-best column counts as a hit", [(MET, lambda s: s.replace(
      "    hits = (top_3 == y_true_array[:, np.newaxis]).any(axis=1)",
      "    kth = np.sort(y_score, axis=1)[:, ::-1][:, : min(3, y_score.shape[1])][:, -1]\n    own = y_score[np.arange(len(y_true_array)), y_true_array]\n    hits = (top_3 == y_true_array[:, np.newaxis]).any(axis=1) | (own == kth)"))]),
+ ("B9 top-3 accuracy ranks with numpy's default (unstable) sort: the tie order changes beyond 16 columns", [(MET, lambda s: s.replace(
+     "kind=\"mergesort\"", "kind=\"quicksort\""))]),
  ("B8 detection: true-class probability of a match read from float64 scores of the prediction (not the stored float32)", [(DET, lambda s: s.replace(
      "    score = metrics.classification_score(true_class, predicted_class_scores)",
      "    score = metrics.classification_score(true_class, predicted_class_scores.astype(np.float64).round(6))"))]),
